@@ -84,6 +84,15 @@ class E:
             return True
         return False
 
+    def has_field(self, name):
+        """some node reads a field / payload named `name` (place fields or projections on call/agg results)"""
+        for e in self.walk():
+            if e.kind == 'place' and name in e.fields:
+                return True
+            if e.kind in ('call', 'agg') and name in e.proj:
+                return True
+        return False
+
     def consts(self):
         return [e for e in self.walk() if e.kind == 'const']
 
@@ -105,30 +114,102 @@ class E:
 
 
 class ExprBuilder:
-    def __init__(self, body, depth=40):
+    """builds symbolic expressions. Top-level lookups without `at` are flow-insensitive (all definitions of the
+    local); every nested lookup is flow-sensitive: it uses the definitions that reach the site of the definition it
+    is expanding (reaching definitions over the normal-edge CFG, field-wise writes included)."""
+
+    PURE_VIEW = ('deref', 'deref_mut', 'as_ref', 'as_mut', 'borrow', 'borrow_mut')
+
+    def __init__(self, body, depth=60):
         self.body = body
         self.depth = depth
         self.memo = {}
+        self._reach = {}
 
-    def operand(self, op, proj=(), d=0):
+    # ---- reaching definitions
+    def reaching(self, local, point):
+        """definitions of `local` reaching `point`=(bb, si) (before statement si; si=len -> before the terminator).
+        Returns list of ('assign', bb, si, stmt) | ('call', bb, Call) | ('entry',)"""
+        key = (local, point)
+        r = self._reach.get(key)
+        if r is not None:
+            return r
+        body = self.body
+        blocks = body.blocks
+        pred = body.pred()
+        res = []
+        seen_defs = set()
+        visited = set()
+        stack = [point]
+        while stack:
+            b, i = stack.pop()
+            st = blocks[b]['st']
+            killed = False
+            for j in range(min(i, len(st)) - 1, -1, -1):
+                s = st[j]
+                if s['k'] == 'assign' and s['lhs']['l'] == local:
+                    if (b, j) not in seen_defs:
+                        seen_defs.add((b, j))
+                        res.append(('assign', b, j, s))
+                    if not s['lhs']['p']:
+                        killed = True
+                        break
+                elif s['k'] == 'dead' and s['l'] == local:
+                    killed = True
+                    break
+            if killed:
+                continue
+            if b == 0 and ('entry',) not in res:
+                res.append(('entry',))
+            for p in pred[b]:
+                t = blocks[p]['t']
+                if t['k'] == 'call' and t['dest']['l'] == local and t['target'] == b:
+                    if (p, 'term') not in seen_defs:
+                        seen_defs.add((p, 'term'))
+                        res.append(('call', p, body.call_at(p)))
+                    if not t['dest']['p']:
+                        continue
+                if p not in visited:
+                    visited.add(p)
+                    stack.append((p, len(blocks[p]['st'])))
+        self._reach[key] = res
+        return res
+
+    def all_defs(self, local):
+        body = self.body
+        res = []
+        for dd in body.defs().get(local, []):
+            res.append(dd if dd[0] == 'assign' else ('call', dd[1], dd[2]))
+        for dd in body.defs().get((local, 'proj'), []):
+            res.append(dd if dd[0] == 'assign' else ('call', dd[1], dd[2]))
+        if 1 <= local <= body.nargs or not res:
+            res.append(('entry',))
+        return res
+
+    # ---- public entry points
+    def operand(self, op, proj=(), d=0, at=None):
         if op['k'] in ('copy', 'move'):
             pl = op['pl']
-            return self.place(pl['l'], tuple(proj_key(p) for p in pl['p']) + tuple(proj), d)
+            return self.place(pl['l'], tuple(proj_key(p) for p in pl['p']) + tuple(proj), d, at)
         if op['k'] == 'const':
             return E('const', const=op['c'])
         return E('unknown', name=op['k'])
 
-    def of_place(self, pl, d=0):
-        return self.place(pl['l'], tuple(proj_key(p) for p in pl['p']), d)
+    def of_place(self, pl, d=0, at=None):
+        return self.place(pl['l'], tuple(proj_key(p) for p in pl['p']), d, at)
 
-    def place(self, local, proj, d=0):
-        key = (local, proj)
+    def arg(self, call, i):
+        """expression of the i-th argument of a call, evaluated at the call site"""
+        return self.operand(call.args[i], at=(call.bb, len(self.body.blocks[call.bb]['st'])))
+
+    def place(self, local, proj, d=0, at=None):
+        key = (local, proj, at)
         if key in self.memo:
             return self.memo[key]
         if d > self.depth:
             return E('unknown', name='depth')
         self.memo[key] = E('unknown', name='cycle')
-        r = self._place(local, proj, d)
+        r = self._place(local, proj, d, at)
         self.memo[key] = r
         return r
 
@@ -142,26 +223,40 @@ class ExprBuilder:
             return E('place', root=('param', local), fields=fields_of(proj))
         return E('place', root=('local', local), fields=fields_of(proj))
 
-    def _place(self, local, proj, d):
+    def _place(self, local, proj, d, at):
         body = self.body
-        defs = list(body.defs().get(local, []))
-        is_param = 1 <= local <= body.nargs
+        defs = self.reaching(local, at) if at is not None else self.all_defs(local)
         results = []
-        if is_param:
-            results.append(self._root(local, proj))
-        # field-wise definitions matching the projection
-        for dd in body.defs().get((local, 'proj'), []):
+        for dd in defs:
+            if dd[0] == 'entry':
+                if 1 <= local <= body.nargs or len(defs) == 1:
+                    results.append(self._root(local, proj))
+                continue
             if dd[0] == 'assign':
                 s = dd[3]
                 lp = tuple(proj_key(p) for p in s['lhs']['p'])
-                if lp and proj[:len(lp)] == lp:
+                if lp:
+                    if proj[:len(lp)] != lp:
+                        continue
                     results.append(self._rvalue(s['rv'], proj[len(lp):], d, (dd[1], dd[2])))
-        for dd in defs:
-            if dd[0] == 'assign':
-                results.append(self._rvalue(dd[3]['rv'], proj, d, (dd[1], dd[2])))
+                else:
+                    results.append(self._rvalue(s['rv'], proj, d, (dd[1], dd[2])))
             else:
-                results.append(self._call(dd[2], proj, d))
+                c = dd[2]
+                lp = tuple(proj_key(p) for p in c.dest['p'])
+                if lp and proj[:len(lp)] != lp:
+                    continue
+                results.append(self._call(c, proj[len(lp):], d))
         results = [r for r in results if r is not None]
+        # drop exact duplicates
+        uniq = []
+        seen = set()
+        for r in results:
+            k = repr(r)
+            if k not in seen:
+                seen.add(k)
+                uniq.append(r)
+        results = uniq
         if not results:
             return self._root(local, proj)
         if len(results) == 1:
@@ -170,36 +265,36 @@ class ExprBuilder:
 
     def _rvalue(self, rv, proj, d, site):
         k = rv['k']
+        at = (site[0], site[1]) if site and site[1] != 'term' else None
         if k == 'use':
-            return self.operand(rv['op'], proj, d + 1)
+            return self.operand(rv['op'], proj, d + 1, at)
         if k in ('ref', 'rawptr'):
             p = list(proj)
             if p and p[0] == '*':
                 p = p[1:]
             pl = rv['pl']
-            return self.place(pl['l'], tuple(proj_key(x) for x in pl['p']) + tuple(p), d + 1)
+            return self.place(pl['l'], tuple(proj_key(x) for x in pl['p']) + tuple(p), d + 1, at)
         if k == 'cast':
             if rv['ck'] == 'Transmute':
-                return E('cast', name='transmute:' + rv['ty'], args=[self.operand(rv['op'], (), d + 1)], site=site,
+                return E('cast', name='transmute:' + rv['ty'], args=[self.operand(rv['op'], (), d + 1, at)], site=site,
                          extra=rv)
             if rv['ck'].startswith('PointerCoercion') or rv['ck'] in ('PtrToPtr', 'Subtype'):
-                return self.operand(rv['op'], proj, d + 1)
-            return E('cast', name=rv['ty'], args=[self.operand(rv['op'], (), d + 1)], site=site, extra=rv)
+                return self.operand(rv['op'], proj, d + 1, at)
+            return E('cast', name=rv['ty'], args=[self.operand(rv['op'], (), d + 1, at)], site=site, extra=rv)
         if k == 'bin':
             if rv['op'].endswith('WithOverflow'):
-                # checked arithmetic: (value, overflowed); `.0` is the value
                 p = [x for x in proj if x != '*']
                 if p and p[0] == ('t', 1):
                     return E('unknown', name='overflow-flag', site=site)
                 return E('bin', name=rv['op'][:-len('WithOverflow')],
-                         args=[self.operand(rv['a'], (), d + 1), self.operand(rv['b'], (), d + 1)], site=site)
-            return E('bin', name=rv['op'], args=[self.operand(rv['a'], (), d + 1), self.operand(rv['b'], (), d + 1)],
-                     site=site)
+                         args=[self.operand(rv['a'], (), d + 1, at), self.operand(rv['b'], (), d + 1, at)], site=site)
+            return E('bin', name=rv['op'], args=[self.operand(rv['a'], (), d + 1, at),
+                                                 self.operand(rv['b'], (), d + 1, at)], site=site)
         if k == 'un':
-            return E('un', name=rv['op'], args=[self.operand(rv['a'], (), d + 1)], site=site)
+            return E('un', name=rv['op'], args=[self.operand(rv['a'], (), d + 1, at)], site=site)
         if k == 'discr':
             pl = rv['pl']
-            return E('discr', args=[self.place(pl['l'], tuple(proj_key(x) for x in pl['p']), d + 1)], site=site,
+            return E('discr', args=[self.place(pl['l'], tuple(proj_key(x) for x in pl['p']), d + 1, at)], site=site,
                      extra=rv)
         if k == 'agg':
             p = list(proj)
@@ -214,28 +309,27 @@ class ExprBuilder:
                 if p[0][3] != rv['v']:
                     return None
                 if p[0][1] in rv['fields']:
-                    return self.operand(rv['ops'][rv['fields'].index(p[0][1])], tuple(p[1:]), d + 1)
+                    return self.operand(rv['ops'][rv['fields'].index(p[0][1])], tuple(p[1:]), d + 1, at)
             if p and rv['ak'] in ('tuple', 'array') and p[0][0] == 't' and p[0][1] < len(rv['ops']):
-                return self.operand(rv['ops'][p[0][1]], tuple(p[1:]), d + 1)
+                return self.operand(rv['ops'][p[0][1]], tuple(p[1:]), d + 1, at)
             if p and rv['ak'] == 'closure' and p[0][0] == 'upvar' and p[0][1] < len(rv['ops']):
-                return self.operand(rv['ops'][p[0][1]], tuple(p[1:]), d + 1)
+                return self.operand(rv['ops'][p[0][1]], tuple(p[1:]), d + 1, at)
             if rv['ak'] == 'adt':
                 nm = norm(rv['adt']) + '::' + rv['v']
             elif rv['ak'] == 'closure':
                 nm = 'closure:' + norm(rv['def'])
             else:
                 nm = rv['ak']
-            return E('agg', name=nm, args=[self.operand(o, (), d + 1) for o in rv['ops']], site=site, extra=rv,
+            return E('agg', name=nm, args=[self.operand(o, (), d + 1, at) for o in rv['ops']], site=site, extra=rv,
                      proj=fields_of(p))
         return E('unknown', name=k, site=site)
 
-    PURE_VIEW = ('deref', 'deref_mut', 'as_ref', 'as_mut', 'borrow', 'borrow_mut')
-
     def _call(self, c, proj, d):
+        at = (c.bb, len(self.body.blocks[c.bb]['st']))
         if proj and c.name in self.PURE_VIEW and len(c.args) == 1 and any(p != '*' for p in proj):
             # (*x.deref()).f  ==  x.f
-            return self.operand(c.args[0], proj, d + 1)
-        return E('call', name=c.callee or '<indirect>', args=[self.operand(a, (), d + 1) for a in c.args],
+            return self.operand(c.args[0], proj, d + 1, at)
+        return E('call', name=c.callee or '<indirect>', args=[self.operand(a, (), d + 1, at) for a in c.args],
                  site=(c.bb, 'term'), extra=c, proj=fields_of(proj))
 
 
@@ -604,6 +698,36 @@ def closure_aggregates(body):
     return out
 
 
+def ref_targets(body, op, _seen=None):
+    """places (local, proj-keys) a reference-typed operand may point to (follows copies of the reference)"""
+    out = []
+    if op['k'] not in ('copy', 'move'):
+        return out
+    _seen = _seen or set()
+    l = op['pl']['l']
+    if op['pl']['p'] or l in _seen:
+        return out
+    _seen.add(l)
+    for d in body.defs().get(l, []):
+        if d[0] != 'assign':
+            continue
+        rv = d[3]['rv']
+        if rv['k'] in ('ref', 'rawptr'):
+            out.append((rv['pl']['l'], tuple(proj_key(p) for p in rv['pl']['p'])))
+        elif rv['k'] == 'use':
+            out.extend(ref_targets(body, rv['op'], _seen))
+    return out
+
+
+def all_closures(facts, body):
+    """closure bodies nested (at any depth) in `body`"""
+    out = []
+    for cb in facts.closures_of(body):
+        out.append(cb)
+        out.extend(all_closures(facts, cb))
+    return out
+
+
 def upvar_expr(facts, closure_body, k):
     """expression (in the parent body) captured as upvar k of the closure"""
     parent_path = norm(closure_body.d.get('parent', ''))
@@ -618,9 +742,10 @@ def closure_args_of_call(facts, body, call):
     """closure bodies passed (directly) as arguments of a call"""
     out = []
     eb = ExprBuilder(body)
-    for a in call.args:
-        e = eb.operand(a)
-        for x in e.walk():
+    for i in range(len(call.args)):
+        e = eb.arg(call, i)
+        alts = e.args if e.kind == 'phi' else [e]
+        for x in alts:
             if x.kind == 'agg' and x.name.startswith('closure:'):
                 cb = facts.closure_body(x.name[len('closure:'):])
                 if cb:
